@@ -54,4 +54,33 @@ PROPS = {
                 "of length 1, two tracts one base apart, everything ambiguous, several random tracts; updown.List in-process under random FASTA layouts; "
                 "non-trivial = some row has a non-A/C/G/T column",
     },
+    "C04": {
+        "streams": {"C04": (400, 6000)},
+        "thorough_seeds": 3,
+        "rule": "genomes 30-160 nt; 0-6 coding features: forward/reverse, 1-3 segments (abutting, overlapping by one base, apart), codon_start 1-3, a nested gene "
+                "sharing a start; GenBank (all five location shapes) or GFF3 (conformant phases; unnamed parent CDS with named mature-peptide children leaving "
+                "gaps; rows without ID); 1-6 queries with A/C/G/T and IUPAC substitutions, deletions incl. at both ends, insertions (reference-gap columns) "
+                "carried wholly/partly/not at all; reference inside the MSA, first on 'stdin', or taken from the annotation; --append-snps on/off; "
+                "variants.Variants in-process; non-trivial = at least one coding feature or a gapped reference row",
+    },
+    "C05": {
+        "streams": {"C05": (500, 8000)},
+        "thorough_seeds": 3,
+        "rule": "as C04 with 1-5 deletions per query (touching either end), 0-6 insertion sites incl. before base 1 and after the last base, queries carrying "
+                "all / a left- or right-aligned part / none of each insertion block; half the cases are the metamorphic relation on the real code: the same "
+                "alignment with 1-5 extra both-gap column blocks injected must give byte-identical output",
+    },
+    "C13": {
+        "streams": {"C13": (600, 8000)},
+        "thorough_seeds": 3,
+        "rule": "a third snps alignments (1-30 rows, width <= 40), two thirds variants cases; thresholds 0, 1, k/n to three decimals, random percent; half the "
+                "cases compare --aggregate with the model and spec, half re-derive the table from the real per-sequence output of the same input",
+    },
+    "C14": {
+        "streams": {"C14": (500, 8000)},
+        "thorough_seeds": 3,
+        "rule": "1-5 genes expressible in both formats (all five location shapes, 1-3 segments with lengths not multiples of 3, codon_start 1-3, conformant "
+                "non-zero continuation phases); a third of the cases run the GenBank form, a third the GFF form (both against model and spec), a third "
+                "compare the two real runs as per-row multisets",
+    },
 }
